@@ -455,14 +455,29 @@ def run(ctx):
     F = ctx.facts(f)     # f is Load(ZoneInfoSource*) here
     raw = Keys(u)
     n_def = 0
+    # the values stored: what is assigned directly, or each value a file-local helper called on the right-hand side returns
+    stores = []
+    from ..lock import is_internal as _is_internal
     for x in walk(f):
         if x.get('kind') == 'BinaryOperator' and x.get('opcode') == '=' and raw.key(kids(x)[0]) == 'this.default_transition_type_':
-            rk = F.keys.key(kids(x)[1])
+            r_ = peel(kids(x)[1])
+            hk = [t for t in (G.resolve_decl(callee(r_)[1]) if r_ is not None and r_.get('kind') == 'CallExpr' and callee(r_) and
+                              callee(r_)[0] == 'fn' and callee(r_)[1].get('_qn') else ()) if t in G.defs and _is_internal(G.defs[t][1])]
+            if len(hk) == 1:
+                hu, hf = G.defs[hk[0]]
+                HF = ctx.facts(hf)
+                for rn in ctx.cfg(hf).returns:
+                    if kids(rn.ast):
+                        for (fs_, arm) in HF.value_cases(kids(rn.ast)[0]):
+                            stores.append((rn.ast, HF.keys.key(arm), frozenset(set(HF.facts_at(rn)) | set(fs_)), HF))
+            else:
+                stores.append((x, F.keys.key(kids(x)[1]), F.facts_at_ast(x) or frozenset(), F))
+    for (x, rk, fs, Fx) in stores:
+        if True:
             n_def += 1
             if rk == 'n:0':
                 ctx.ok('C01-default', 'before-first type starts as type 0', x, 'constant 0')
                 continue
-            fs = F.facts_at_ast(x) or frozenset()
             flags = [a if b == 'n:0' else b for (op, a, b) in fs if op == '!=' and 'n:0' in (a, b) and re.match(r'^\w+#0x[0-9a-f]+$', a if b == 'n:0' else b)]
             good = False
             for fl in flags:
